@@ -264,7 +264,7 @@ def run_threads(ctx, rounds):
                 barrier.wait(20)   # all threads ask for never-produced indices at the same moment
             except threading.BrokenBarrierError:
                 pass
-            for q in [qs[1]] + rr.sample(qs, 3):
+            for q in [qs[1]] + (rr.sample(qs, 3) if size < 5000 else [qs[5]]):
                 for m in q.finditer(doc):
                     parts = tuple(m.parts)
                     checked[0] += 1
@@ -278,7 +278,7 @@ def run_threads(ctx, rounds):
                         errors.append({"query": str(q), "parts": list(parts), "path": m.path, "expected_path": normalized_path(parts), "thread": wid, "array_length": n})
                         return
 
-        st = stress(worker, nthreads=8, files=("selectors.py", "serialize.py", "match.py", "path.py"), seed=r.random(), prob=0.01 if rnd % 2 else 0.2)
+        st = stress(worker, nthreads=8, files=("selectors.py", "serialize.py", "match.py", "path.py"), seed=r.random(), prob=0.2 if (rnd % 2 == 0 and size < 3000) else 0.01)
         ctx.evaluation(checked[0])
         ctx.count("matches_checked_under_threads", checked[0])
         ctx.count("yields_injected", st["yields"])
